@@ -105,7 +105,7 @@ pub fn run(tier: Tier) -> i32 {
             let params: Vec<MeanVari> = (0..nl * ns).map(|i| MeanVari(means[i % means.len()], 1.0 + (i % 2) as f64)).collect();
             let est = DurationEstimator::new(params.clone(), ns);
             let total = ann.len().pow(nl as u32);
-            par_for(total, 512, |code| {
+            rep.par_for(total, 512, "C09 part 1", |code| {
                 let mut c = code;
                 let times: Vec<(f64, f64)> = (0..nl)
                     .map(|_| {
@@ -153,10 +153,11 @@ pub fn run(tier: Tier) -> i32 {
         }
         for &ns in &[1usize, 2, 5] {
             let nl = 4;
+            let ann4 = if ns == 1 { ann.clone() } else { ann4.clone() };
             let params: Vec<MeanVari> = (0..nl * ns).map(|i| MeanVari(means[i % means.len()], 1.0 + (i % 2) as f64)).collect();
             let est = DurationEstimator::new(params.clone(), ns);
             let total = ann4.len().pow(nl as u32);
-            par_for(total, 512, |code| {
+            rep.par_for(total, 512, "C09 part 2", |code| {
                 let mut c = code;
                 let times: Vec<(f64, f64)> = (0..nl)
                     .map(|_| {
@@ -187,7 +188,7 @@ pub fn run(tier: Tier) -> i32 {
     let v0 = jbonsai::Engine::load(&[BUNDLED]).expect("bundled");
     let gen = engine_from_bytes(&GenCfg { nstate: 2, ..GenCfg::default() }.bytes()).expect("generated voice");
     let e2e = AtomicU64::new(0);
-    let unit_cells: Vec<(usize, usize)> = vec![(48000, 240), (16000, 80), (8000, 1)];
+    let unit_cells: Vec<(usize, usize)> = vec![(48000, 240), (16000, 80), (8000, 1), (44100, 240), (48000, 256), (16000, 3)];
     let utt: Vec<&str> = corpus[40..43].iter().map(|s| s.as_str()).collect();
     // time stamps in seconds per label boundary pattern
     let patterns: Vec<Vec<(Option<f64>, Option<f64>)>> = vec![
